@@ -269,7 +269,11 @@ def run(ctx):
             # quick: all four cell classes in one-row tables for the first option set, two-row tables over two classes afterwards
             res = run_cfg(ctx, f"cleaning{oi}", cfg_text(kinds, maxlen=3 if q else 4, maxrows=(1 if oi == 0 else 2) if q else 2,
                                                           cellids=((1, 2, 3, 4) if oi == 0 else (1, 4)) if q else (1, 2, 3, 4),
-                                                          colsets="CS1" if (q or oi) else "CS2", maxtables=4, keyvals=(1, 2) if q else (1, 2, 3)), stdfile)
+                                                          colsets="CS1", maxtables=4, keyvals=(1, 2) if q else (1, 2, 3)), stdfile)
+            if oi == 0 and not q:
+                # all nine standard columns at once: one-row tables over two cell classes per column (3^9 tables)
+                r9 = run_cfg(ctx, "cleaning9", cfg_text(["std"], maxrows=1, cellids=(1, 4), colsets="CS9"), stdfile)
+                res.printed = list(res.printed) + [d_ for d_ in r9.printed if "kind" in d_ and len(d_.get("tab", [])) == 1]
             _STATE[oi] = (interner, opts)
             items = []
             for doc in ctx.sample([d for d in res.printed if "kind" in d], 60000):
